@@ -184,11 +184,14 @@ def set_peercred(on):
 class Trace:
     """What the wrappers observe during one session."""
 
-    def __init__(self):
+    def __init__(self, script=None, strict=False):
         self.handed = []       # per handled line: dict(line, outcomes, rejects, replies, raised)
         self.cancels = 0
         self.steps = 0
         self.cur = None
+        self.script = list(script or [])      # outcome script of THIS connection's scripted mechanisms
+        self.strict = strict
+        self.proto = None
 
     def begin_line(self, line, nsent):
         self.cur = {'line': bytes(line), 'outcomes': [], 'rejects': 0, 'sent_from': nsent, 'raised': None}
@@ -200,12 +203,68 @@ class NeedMore(Exception):
 
 
 class _Cur:
-    """The session being run (one at a time): trace, outcome script, strictness."""
+    """The connection whose `dataReceived` (or `makeConnection`) is running right now - set by `activate`, i.e. by
+    `feed` before every read: several sessions may be alive at once, each with its own trace and outcome script.
+    Only an attribution device: what a wrapper observes is booked on the connection being fed."""
     tr = None
-    script = None
-    strict = False
     proto = None
     auth = None
+
+
+def activate(proto):
+    _Cur.tr, _Cur.proto = proto.h_trace, proto
+
+
+def _outcome(r):
+    """The outcome letter of what a mechanism's step() returned."""
+    o = 'A' if r[0] == 'OK' else ('C' if r[0] == 'CONTINUE' else 'R')
+    if o == 'C':
+        ch = r[1]
+        if isinstance(ch, str):
+            ch = ch.encode('ascii')
+        o = 'C:' + binascii.hexlify(ch or b'').decode('ascii')
+    return o
+
+
+class RecordReal:
+    """For the `plain` sessions: the bus runs the authenticator with the library's OWN `authenticators` dictionary and
+    the library's OWN mechanism classes (no harness subclass in the table); for the duration of the scenario the
+    `step` / `cancel` methods of those classes are wrapped in place to book outcomes on the connection being fed."""
+
+    def __enter__(self):
+        self.saved = []
+        table = impl()['authentication'].BusAuthenticator.authenticators
+        for n, cls in table.items():
+            for meth in ('step', 'cancel'):
+                had = meth in vars(cls)
+                orig = getattr(cls, meth)
+                self.saved.append((cls, meth, had, vars(cls).get(meth)))
+                setattr(cls, meth, self._wrap(n, meth, orig))
+        return self
+
+    @staticmethod
+    def _wrap(n, meth, orig):
+        if meth == 'step':
+            def step(self, arg):
+                tr = _Cur.tr
+                tr.steps += 1
+                r = orig(self, arg)
+                if tr.cur is not None:
+                    tr.cur['outcomes'].append((n, _outcome(r)))
+                return r
+            return step
+
+        def cancel(self):
+            _Cur.tr.cancels += 1
+            return orig(self)
+        return cancel
+
+    def __exit__(self, *a):
+        for cls, meth, had, old in reversed(self.saved):
+            if had:
+                setattr(cls, meth, old)
+            else:
+                delattr(cls, meth)
 
 
 def _build_classes():
@@ -227,12 +286,12 @@ def _build_classes():
         def step(self, arg):
             tr = _Cur.tr
             tr.steps += 1
-            if not _Cur.script:
-                if _Cur.strict:
+            if not tr.script:
+                if tr.strict:
                     raise NeedMore()
                 o = 'R'
             else:
-                o = _Cur.script.pop(0)
+                o = tr.script.pop(0)
             if tr.cur is not None:
                 tr.cur['outcomes'].append((self.name, o))
             if o == 'A':
@@ -259,14 +318,8 @@ def _build_classes():
                     tr = _Cur.tr
                     tr.steps += 1
                     r = cls.step(self, arg)
-                    o = 'A' if r[0] == 'OK' else ('C' if r[0] == 'CONTINUE' else 'R')
-                    if o == 'C':
-                        ch = r[1]
-                        if isinstance(ch, str):
-                            ch = ch.encode('ascii')
-                        o = 'C:' + binascii.hexlify(ch).decode('ascii')
                     if tr.cur is not None:
-                        tr.cur['outcomes'].append((n, o))
+                        tr.cur['outcomes'].append((n, _outcome(r)))
                     return r
 
                 def cancel(self):
@@ -278,7 +331,8 @@ def _build_classes():
 
     def mk_auth(table):
         class HAuth(authentication.BusAuthenticator):
-            authenticators = table
+            if table is not None:
+                authenticators = table
 
             def __init__(self, *a, **kw):
                 authentication.BusAuthenticator.__init__(self, *a, **kw)
@@ -315,6 +369,7 @@ def _build_classes():
         return HProto
     I['proto_scripted'] = mk_proto(mk_auth(stable))
     I['proto_real'] = mk_proto(mk_auth(rtable))
+    I['proto_plain'] = mk_proto(mk_auth(None))      # the library's own table and classes (see RecordReal)
     I['restricted'] = {}
 
     def restricted(mode, names):
@@ -328,57 +383,75 @@ def _build_classes():
     I['restricted_proto'] = restricted
 
 
-def make_session(mode, script=None, env=None, strict_script=False, offer=None):
-    """Build a BusProtocol on a StringTransport.  mode 'scripted': mechanisms pop `script`;
-    mode 'real': the real mechanism classes, wrapped only to record outcomes."""
+def make_session(mode, script=None, env=None, strict_script=False, offer=None, setup='auto'):
+    """Build a BusProtocol on a StringTransport.  mode 'scripted': mechanisms pop `script` (this connection's own);
+    mode 'real': the real mechanism classes, wrapped only to record outcomes; mode 'plain': the library's own table
+    (inside a `RecordReal` block).  setup='none': nothing is done about the peer credentials (the caller owns the
+    SO_PEERCRED switch and the socket: several connections are alive at once)."""
     I = impl()
     if 'proto_scripted' not in I:
         _build_classes()
-    tr = Trace()
-    _Cur.tr, _Cur.script, _Cur.strict = tr, list(script or []), strict_script
+    tr = Trace(script, strict_script)
     if offer is not None:
         proto = I['restricted_proto'](mode, offer)()
     else:
-        proto = I['proto_scripted' if mode == 'scripted' else 'proto_real']()
-    _Cur.proto = proto
+        proto = I['proto_' + mode]()
+    proto.h_trace = tr
+    tr.proto = proto
+    activate(proto)
     proto.factory = _Factory
     t = I['StringTransport']()
+    _Cur.auth = None
     proto.makeConnection(t)
+    # the authenticator this protocol got: the one built during makeConnection (HAuth.__init__ books it); when none
+    # was built (somebody reuses one) whatever the protocol holds
+    proto.h_auth = _Cur.auth if _Cur.auth is not None else getattr(proto, '_dbusAuth', None)
     proto.h_force_creds = False
+    if setup == 'none':
+        return proto, t, tr
     if env is None:
         set_peercred(False)
         if I['gate'][0] == 'always':
             import struct as _st
             t.socket = type('Sock', (), {'getsockopt': lambda self, *a: _st.pack('3i', 0, -1, -1)})()
     if env is not None:
-        import struct
         creds = env.get('creds_tuple')
-
-        class FakeSock:
-            def getsockopt(self, level, opt, size):
-                assert (opt, size) == (17, struct.calcsize('3i')), (opt, size)
-                return struct.pack('3i', *(creds if creds is not None else (0, -1, -1)))
         want_linux = bool(env.get('linux') and creds is not None)
         ok = set_peercred(want_linux)
         if want_linux and ok:
             # the SO_PEERCRED block of dataReceived runs for real, against a fake socket
-            t.socket = FakeSock()
+            t.socket = fake_socket(creds)
         else:
             if not ok and I['gate'][0] == 'always':
                 # the lookup cannot be switched off: let it run against the fake socket, then put the wanted
                 # credentials in place right after the NUL byte (`_unix_creds` is pinned by the test suite)
-                t.socket = FakeSock()
+                t.socket = fake_socket(creds)
                 proto.h_force_creds = True
                 proto.h_creds = creds
-            proto._unix_creds = creds
-    proto.h_auth = _Cur.auth
-    proto.h_trace = tr
+            if creds is not None:
+                proto._unix_creds = creds
     return proto, t, tr
 
 
+def fake_socket(creds):
+    """What `transport.socket` must offer for the SO_PEERCRED lookup of dataReceived: (pid, uid, gid) of THIS
+    connection's peer, (0, -1, -1) when the kernel has none."""
+    import struct
+
+    class FakeSock:
+        calls = 0
+
+        def getsockopt(self, level, opt, size):
+            assert (opt, size) == (17, struct.calcsize('3i')), (opt, size)
+            FakeSock.calls += 1
+            return struct.pack('3i', *(creds if creds is not None else (0, -1, -1)))
+    return FakeSock()
+
+
 def feed(proto, t, reads):
-    """Deliver the reads; stop after an exception escaped (the reactor drops the connection)."""
+    """Deliver the reads to this connection; stop after an exception escaped (the reactor drops the connection)."""
     crashed = None
+    activate(proto)
     if getattr(proto, 'h_force_creds', False) and reads and len(reads[0]) > 1:
         reads = [reads[0][:1], reads[0][1:]] + list(reads[1:])
     for k, r in enumerate(reads):
@@ -1593,7 +1666,6 @@ def judge_interleaved(ctx, rng):
 
         def send(name, line):
             x = sess[name]
-            _Cur.tr, _Cur.proto = x['tr'], x['proto']
             if x['crashed'] is None:
                 before = len(x['t'].value())
                 x['crashed'] = feed(x['proto'], x['t'], [line])
@@ -1747,7 +1819,6 @@ def judge_overlapping(ctx, schedule, users, dirstate, frac):
 
         def send(i, line):
             x = get(i)
-            _Cur.tr, _Cur.proto = x['tr'], x['proto']
             if x['crashed'] is not None:
                 return b''
             before = len(x['t'].value())
